@@ -162,7 +162,7 @@ fn needs_cross(fam: &str) -> bool {
 
 fn pos_sizes(tier: Tier) -> Vec<(usize, usize)> {
     let dims: &[usize] = match tier {
-        Tier::Quick => &[8, 16, 128],
+        Tier::Quick => &[8, 16, 32, 64, 128], // cheap: the quick tier uses the full size set
         Tier::Thorough => &[8, 16, 32, 64, 128],
     };
     let mut v = Vec::new();
@@ -175,11 +175,11 @@ fn pos_sizes(tier: Tier) -> Vec<(usize, usize)> {
 }
 
 fn pal_max(tier: Tier) -> usize {
-    tier.pick(17, 64)
+    tier.pick(40, 64)
 }
 
 fn rand_seeds(tier: Tier) -> u64 {
-    tier.pick(4, 32)
+    tier.pick(8, 32)
 }
 
 fn chunk_count(tier: Tier, fam: &str) -> u64 {
